@@ -23,7 +23,7 @@ func TestFreeRun(t *testing.T) {
 	runtime.GOMAXPROCS(8)
 	seen := map[string]int{}
 	for i := 0; i < n; i++ {
-		c := gen(sim.Mix(777, uint64(i)), "quick", i).(*Case)
+		c := gen(sim.Mix(777+freeSeed(), uint64(i)), "quick", i).(*Case)
 		shared := build(c)
 		off := raceLogSize()
 		var wg sync.WaitGroup
@@ -49,4 +49,9 @@ func TestFreeRun(t *testing.T) {
 	for k, v := range seen {
 		fmt.Printf("FREERUN-RACE %d x %s\n", v, k)
 	}
+}
+
+func freeSeed() uint64 {
+	v, _ := strconv.ParseUint(os.Getenv("CUESIM_FREESEED"), 10, 64)
+	return v * 1000003
 }
